@@ -395,6 +395,15 @@ def _param_fresh_at_callers(fr: Fresh, fid: FuncId, pname: str) -> Tuple[bool, s
             return False, str(e)
         if pname not in b:
             continue        # the parameter's default is used: nothing shared is handed in
+        if cf == fid and isinstance(b[pname], ast.Name) and b[pname].id == pname:
+            # the function hands its own accumulator on to itself: fresh by induction when every value the
+            # function itself binds to the name is fresh (the other callers are judged below / above)
+            rebinds = [st.value for st in walk_no_nested(fn) if isinstance(st, ast.Assign) and len(st.targets) == 1
+                       and isinstance(st.targets[0], ast.Name) and st.targets[0].id == pname]
+            bad = [w for okv, w in (fr.fresh(v, fn, mi, ci) for v in rebinds) if not okv]
+            if bad:
+                return False, f"{fid.qual} rebinds {pname} to a shared value ({bad[0]}) and passes it on to itself"
+            continue
         ok, why = fr.fresh(b[pname], cfn, cmi, cci)
         if not ok:
             return False, f"caller {cf.qual} passes a shared value for {pname} ({why})"
